@@ -70,7 +70,7 @@ class C10(Prop):
         # free, a guard on the raw central sums must not treat low-amplitude channels as constant
         den = rng.choice((1, 1, 2, 16, 2 ** 20, 2 ** 24))
         kind = rng.choice(("push", "push", "merge")) if T >= 2 else "push"
-        case = {"T": T, "C": C, "dkind": dkind, "den": den, "dseed": rng.randrange(1 << 30)}
+        case = {"T": T, "C": C, "dkind": dkind, "den": den, "dseed": rng.randrange(1 << 30), "peek": rng.random() < 0.3}
         if kind == "push":
             case.update(kind="push", mode=rng.choice(("full", "full", "basic")),
                         chunks=comp or self._rand_comp(rng, T))
@@ -124,7 +124,7 @@ class C10(Prop):
         return cases
 
     # ------------------------------------------------------------------
-    def _feed(self, data, den, chunks, mode):
+    def _feed(self, data, den, chunks, mode, peek=False):
         from sigpyproc.core.stats import ChannelStats
 
         T, C = data.shape
@@ -134,6 +134,11 @@ class C10(Prop):
         for ii, n in enumerate(chunks):
             bag.push_data(np.ascontiguousarray(x[pos:pos + n]).ravel(), ii, mode=mode)
             pos += n
+            if peek:
+                # a monitor reading the running statistics between chunks must not change (or freeze) anything
+                _ = (bag.mean, bag.var, bag.std, bag.maxima, bag.minima)
+                if mode == "full":
+                    _ = (bag.skew, bag.kurtosis)
         return bag
 
     def _summ(self, bag):
@@ -147,7 +152,7 @@ class C10(Prop):
         data = make_data(case)
         try:
             if case["kind"] == "push":
-                return self._summ(self._feed(data, case["den"], case["chunks"], case["mode"]))
+                return self._summ(self._feed(data, case["den"], case["chunks"], case["mode"], case.get("peek", False)))
             if case["kind"] == "reader":
                 import common
                 import spfiles
@@ -162,8 +167,8 @@ class C10(Prop):
                 finally:
                     fil._file.close()
             sp = case["split"]
-            a = self._feed(data[:sp], case["den"], case["chunksA"], "full")
-            b = self._feed(data[sp:], case["den"], case["chunksB"], "full")
+            a = self._feed(data[:sp], case["den"], case["chunksA"], "full", case.get("peek", False))
+            b = self._feed(data[sp:], case["den"], case["chunksB"], "full", case.get("peek", False))
             if case.get("inplace"):
                 a += b                  # the in-place spelling must be the same merge
                 return self._summ(a)
